@@ -12,14 +12,14 @@ def _print_err(*args, **kwargs):
     print(*args, file=sys.stderr, **kwargs)
 
 
-def _safe_relpath(path):
+def _safe_relpath(path, start=None):
     """Attempt to make a relative path, or return the original path.
 
     This is useful for logging and representing objects, where an absolute path
     may be very long.
     """
     try:
-        return os.path.relpath(path)
+        return os.path.relpath(path, start)
     except ValueError:
         # Windows cannot find relative paths across drives, so show the
         # original path instead.
